@@ -189,6 +189,35 @@ impl<T: InternalVertexInfo + super::sealed::__Sealed> VertexInfo for T {
                 .map(RequiredProperty::new)
         }));
 
+        // Properties of this vertex that are tagged and then used outside this component's
+        // vertex filters: inside a `@fold` of this component (at any depth, since such tags are
+        // imported by the outermost such fold), or in a filter on the fold's count.
+        let current_vid = current_vertex.vid;
+        let properties = properties.chain(
+            current_component
+                .folds
+                .values()
+                .flat_map(move |fold| {
+                    let imported = fold.imported_tags.iter().filter_map(move |tag| match tag {
+                        FieldRef::ContextField(ctx) if ctx.vertex_id == current_vid => {
+                            Some(ctx.field_name.clone())
+                        }
+                        _ => None,
+                    });
+                    let post_filters = fold.post_filters.iter().filter_map(move |f| match f.right()
+                    {
+                        Some(Argument::Tag(FieldRef::ContextField(ctx)))
+                            if ctx.vertex_id == current_vid =>
+                        {
+                            Some(ctx.field_name.clone())
+                        }
+                        _ => None,
+                    });
+                    imported.chain(post_filters)
+                })
+                .map(RequiredProperty::new),
+        );
+
         let mut seen_property = HashSet::new();
         Box::new(properties.filter(move |r| seen_property.insert(r.name.clone())))
     }
